@@ -17,6 +17,14 @@ def content(r, kind, n):
 
 
 def build(data, block, fault=None, with_hash=True, sid="sid-1"):
+    if isinstance(block, tuple):
+        # the receiver lets the library write to a file path at which a (usually longer) file already exists
+        _, inner, junk = block
+        steps = build(data, inner, fault, with_hash, sid)
+        for st in steps:
+            if st.get("op") == "client" and st.get("c") == 1:
+                st["recvToFile"] = junk
+        return steps
     socks = block == "socks"
     if socks:
         # SOCKS5 bytestream, sender's own SOCKS5 server as the only stream host, reached through a tampering TCP hop
@@ -43,6 +51,11 @@ def build(data, block, fault=None, with_hash=True, sid="sid-1"):
 
 
 def judge(data, block, fault, with_hash, out, viol, stats):
+    to_file = None
+    if isinstance(block, tuple):
+        to_file = block[2]
+        block = block[1]
+        stats["received_into_existing_file"] += 1
     j = out["journal"]
     rj = [e for e in j if e["ev"] == "cli_sig" and e["name"] == "recvJobFinished"]
     sj = [e for e in j if e["ev"] == "cli_sig" and e["name"] == "sendJobFinished"]
@@ -53,7 +66,7 @@ def judge(data, block, fault, with_hash, out, viol, stats):
         stats["socks5_transfers"] += 1
         if any(e["ev"] == "socks_hop" for e in j):
             stats["socks5_through_hop"] += 1
-    w = {"size": len(data), "block_size": block, "blocks": nblocks, "fault": fault, "hash_announced": with_hash, "sender": [(e["error"], e["state"]) for e in sj],
+    w = {"size": len(data), "destination": "file path with a %d byte file already there" % to_file if to_file is not None else "device", "block_size": block, "blocks": nblocks, "fault": fault, "hash_announced": with_hash, "sender": [(e["error"], e["state"]) for e in sj],
          "receiver": [(e["error"], e["state"], len(e["data"]) // 2) for e in rj], "content_sha1": hashlib.sha1(data).hexdigest()}
     stats["transfers"] += 1
     recv_ok = bool(rj) and rj[-1]["error"] == NOERROR
@@ -67,7 +80,7 @@ def judge(data, block, fault, with_hash, out, viol, stats):
         if socks and kind == "flip" and not with_hash:
             stats["socks5_flip_without_hash_not_detectable"] += 1   # nothing in the protocol protects the content then: not judged
             return
-        viol.append(("success-with-wrong-bytes%s fault=%s hash=%s" % (" socks5" if socks else "", kind, with_hash), "the receiver reports success but holds %d bytes that differ from the %d bytes sent" % (len(got), len(data)), w))
+        viol.append(("success-with-wrong-bytes%s%s fault=%s hash=%s" % (" socks5" if socks else "", " into-existing-file" if to_file is not None else "", kind, with_hash), "the receiver reports success but holds %d bytes that differ from the %d bytes sent" % (len(got), len(data)), w))
         return
     if not fault or not injected:
         if not fault:
@@ -162,6 +175,12 @@ def main(tier, replay=None):
                         if kind == "earlyclose" and at == 0 and size == 1:
                             pass
                         jobs.append((size, "socks", "random", {"kind": kind, "at": at, "len": min(ln, size - at) if kind != "append" else ln, "bit": (at * 3) % 8}, wh))
+    # destination = a file path (QXmppTransferJob::accept(path)) where a shorter / equal / longer file already exists
+    for inner in (4096, "socks"):
+        for size in (1, 100, 5000):
+            for junk in (0, size, size + 1, 3 * size + 7):
+                jobs.append((size, ("file", inner, junk), "random", None, True))
+                jobs.append((size, ("file", inner, junk), "all", None, False))
     if tier != "quick":
         for _ in range(2000):
             size = r.choice([1, 10, 1000, 5000, 100000])
@@ -177,7 +196,7 @@ def main(tier, replay=None):
             jobs.append((size, b, "random", f, r.random() < 0.8))
     W = vf.NPROC
     # long transfers first so that they overlap with the short ones
-    jobs.sort(key=lambda j: -j[0] // max(1, j[1] if j[1] != "socks" else 4096))
+    jobs.sort(key=lambda j: -j[0] // max(1, j[1] if isinstance(j[1], int) else 4096))
     with ProcessPoolExecutor(max_workers=W) as pool:
         res = list(pool.map(worker, [(w, jobs[w::W]) for w in range(W)]))
     stats = collections.Counter()
@@ -193,7 +212,8 @@ def main(tier, replay=None):
                    "position of short transfers; oracle: receiver success => identical bytes; fault-free => both sides succeed with identical bytes",
            "socks5": "SOCKS5 bytestream transfers (the sender's own SOCKS5 server as stream host, reached by the receiver through a tampering TCP hop the relay substitutes in the stream-host offer): fault-free size/content matrix "
                      "with and without hash; single faults in the payload behind the SOCKS5 negotiation (drop, bit flip, duplicate, early close, appended bytes) at offsets {0, middle, last}; a flipped bit without an announced hash is undetectable by design and not judged",
+           "file_sink": "fault-free transfers (in-band and SOCKS5) accepted into a file path at which a file of 0 / size / size+1 / 3*size+7 bytes already exists; the file is read back from disk after the job finished",
            "fault_enumeration": "exhaustive per short transfer", "observed": dict(stats), "samples": [{"size": 40, "block_size": 7, "fault": {"kind": "swap", "at": 2}}]}
-    floors = {"fault_free_ok": stats["fault_free_ok"] > 20, "faults": stats["faulted"] > 50, "wrap_case": stats["class:blocks>65536"] > 0, "socks5_fault_free": stats["socks5_fault_free_ok"] >= 20, "socks5_hop_used": stats["socks5_through_hop"] >= 20, "socks5_faults_detected": stats["socks5_fault_detected"] >= 10}
+    floors = {"fault_free_ok": stats["fault_free_ok"] > 20, "faults": stats["faulted"] > 50, "wrap_case": stats["class:blocks>65536"] > 0, "socks5_fault_free": stats["socks5_fault_free_ok"] >= 20, "socks5_hop_used": stats["socks5_through_hop"] >= 20, "socks5_faults_detected": stats["socks5_fault_detected"] >= 10, "file_sinks": stats["received_into_existing_file"] >= 20}
     V.finish(cov, "fault_enumeration", ["block sizes other than 4096 need the QXMPP_VERIF_HOOKS setter (the manager has no public one)", "SOCKS5: direct stream hosts only (no XEP-0065 proxy service), both clients on this machine",
                                         "faults are applied to IBB <data/> stanzas by the relaying server"], floors)
